@@ -400,6 +400,9 @@ var tblPrograms = [][][]tblOp{
 	{{{true, "k1", "a"}, {true, "k2", "x"}}, {{false, "k1", ""}, {false, "k2", ""}}, {{true, "k1", "b"}, {false, "k2", ""}}},
 	{{{true, "k1", "a"}, {true, "k1", "c"}}, {{true, "k1", "b"}, {false, "k1", ""}}, {{false, "k1", ""}, {false, "k1", ""}}},
 	{{{false, "k1", ""}, {true, "k2", "y"}}, {{true, "k2", "x"}, {false, "k2", ""}}, {{true, "k1", "a"}, {false, "k2", ""}}},
+	// an empty and a nil value are values like any other: the last writer wins with them too
+	{{{true, "k1", "a"}, {false, "k1", ""}}, {{true, "k1", ""}, {false, "k1", ""}}},
+	{{{true, "k1", "<nil>"}, {false, "k1", ""}}, {{true, "k1", "b"}, {true, "k1", "<nil>"}, {false, "k1", ""}}},
 }
 
 func tblBody(prog [][]tblOp, nilTable bool) func() string {
@@ -421,7 +424,11 @@ func tblBody(prog [][]tblOp, nilTable bool) func() string {
 				for _, c := range mine {
 					c.call = clk.tick()
 					if c.op.write {
-						e.FormattedAs(c.op.key, []byte(c.op.val))
+						if c.op.val == "<nil>" {
+							e.FormattedAs(c.op.key, nil)
+						} else {
+							e.FormattedAs(c.op.key, []byte(c.op.val))
+						}
 					} else {
 						b, ok := e.Format(c.op.key)
 						c.got, c.ok = string(b), ok
@@ -453,7 +460,7 @@ func tblBody(prog [][]tblOp, nilTable bool) func() string {
 				for _, k := range perm {
 					c := calls[k]
 					if c.op.write {
-						m[c.op.key] = c.op.val
+						m[c.op.key] = strings.TrimPrefix(c.op.val, "<nil>")
 					} else {
 						v, ok := m[c.op.key]
 						if v != c.got || ok != c.ok {
@@ -549,7 +556,7 @@ func main() {
 				return hk.ExploreJob(prop, job, deadline, ex, fmt.Sprintf("program %d nilTable=%v", k/2, k%2 == 1))
 			}
 		},
-		Rule: "payloads: every value of a JSON grammar with leaves {\"\", ascii, quotes/backslash/control characters, invalid UTF-8, <>& and U+2028, 2^53+1, -1, 1.5, nil, true, NaN, +Inf, chan, func, complex} in containers {map, slice of 1-2, struct with json tags incl. omitempty, pointer} nested up to depth 3 (level 3 sampled 1-in-7 in quick, complete in thorough) x event types {plain, quote+backslash, newline, unicode+html, control bytes + DEL + ESC, invalid UTF-8, unassigned / plane-14 / U+10FFFF runes} x {JSONFormatter, JSONFormatterFilter with predicate absent/true/false/(false,error)/(true,error)}. Oracle: one newline-terminated line, valid JSON with exactly created_at/event_type/payload decoding back to the creation time, the type and the JSON image computed from the descriptor; payload/type/time untouched; unencodable => (nil, err) and nothing stored; the bytes stored for the previously formatted event stay unchanged (no buffer reuse); every case also with an event that already carries stale bytes under the json format (they must be replaced); forwarding truth tables incl. Filter. Event.FormattedAs/Format: 4 programs of 2-3 threads x 2 operations on 2 keys (with and without a pre-made table), ALL interleavings under the race detector, results must be linearizable to a last-writer-wins map (brute force).",
+		Rule: "payloads: every value of a JSON grammar with leaves {\"\", ascii, quotes/backslash/control characters, invalid UTF-8, <>& and U+2028, 2^53+1, -1, 1.5, nil, true, NaN, +Inf, chan, func, complex} in containers {map, slice of 1-2, struct with json tags incl. omitempty, pointer} nested up to depth 3 (level 3 sampled 1-in-7 in quick, complete in thorough) x event types {plain, quote+backslash, newline, unicode+html, control bytes + DEL + ESC, invalid UTF-8, unassigned / plane-14 / U+10FFFF runes} x {JSONFormatter, JSONFormatterFilter with predicate absent/true/false/(false,error)/(true,error)}. Oracle: one newline-terminated line, valid JSON with exactly created_at/event_type/payload decoding back to the creation time, the type and the JSON image computed from the descriptor; payload/type/time untouched; unencodable => (nil, err) and nothing stored; the bytes stored for the previously formatted event stay unchanged (no buffer reuse); every case also with an event that already carries stale bytes under the json format (they must be replaced); forwarding truth tables incl. Filter. Event.FormattedAs/Format: 6 programs of 2-3 threads x 2-3 operations on 2 keys (values incl. empty and nil) (with and without a pre-made table), ALL interleavings under the race detector, results must be linearizable to a last-writer-wins map (brute force).",
 		Assumptions: []string{
 			"encoding/json's decoder is the independent reader of the emitted bytes; the expected image is computed from the value's descriptor, never by encoding the value",
 		},
